@@ -39,6 +39,7 @@ m = {
         'add_only': True,
     },
     'engines': [
+        {'name': 'optdiff', 'path': 'vlib/optdiff.py', 'serves_properties': ['C03', 'C31'], 'kind_free_text': 'per-rule / pipeline executions against the unoptimized plan through the driver'},
         {'name': 'distdiff', 'path': 'checks/c09.py, c10.py, c45.py + harness/qe-driver/src/dist.rs', 'serves_properties': ['C09', 'C10', 'C45'],
          'kind_free_text': 'real coordinator driven through an in-process (optionally fault-injecting) FragmentTransport'},
         {'name': 'loom', 'path': 'harness-loom', 'serves_properties': ['C33'], 'kind_free_text': 'loom model of the real memory pool source file'},
